@@ -112,6 +112,58 @@ def slot_insertion(P, R):
                     def typ(t):
                         return t.ev['k'] == 'store' and is_field(t.ev['lhs'], 'type') and is_var(t.ev['lhs']['base'], srv) and t.ev.get('op') == '='
                     p = f.path_from_block(e.dst, typ)
+                    if p is not None:
+                        # the path may be infeasible: the lookup may leave its loop with "index < table size" known and test
+                        # "index >= table size" afterwards; follow the index's interval
+                        ivs = sorted({x for y in a for x in vars_in(y)} & {x for t in f.stores() if typ(t) for x in vars_in(t.ev['rhs'])})
+                        if ivs:
+                            iv = ivs[0]
+                            m_edge = (e.src, e.dst, e.label)
+
+                            def ident(x, iv=iv):
+                                return 'i' if is_var(x, iv) else None
+
+                            LO, HI = -2, 40
+
+                            def on_edge2(st, e2, m_edge=m_edge):
+                                matched, typed, lo, hi = st
+                                r2 = rules.edge_rel(e2)
+                                if r2 and is_var(r2[0], iv) and isinstance(const_of(r2[2]), int):
+                                    c = const_of(r2[2])
+                                    op = r2[1]
+                                    if op == '<':
+                                        hi = min(hi, c - 1)
+                                    elif op == '<=':
+                                        hi = min(hi, c)
+                                    elif op == '>':
+                                        lo = max(lo, c + 1)
+                                    elif op == '>=':
+                                        lo = max(lo, c)
+                                    elif op == '==':
+                                        lo, hi = max(lo, c), min(hi, c)
+                                    if lo > hi:
+                                        return None
+                                if (e2.src, e2.dst, e2.label) == m_edge:
+                                    matched = True
+                                return (matched, typed, lo, hi)
+
+                            def on_event2(st, t):
+                                matched, typed, lo, hi = st
+                                if typ(t):
+                                    typed = True
+                                ev = t.ev
+                                if ev['k'] == 'store' and is_var(ev.get('lhs'), iv):
+                                    if ev.get('op') == '=' and isinstance(const_of(ev.get('rhs')), int):
+                                        lo = hi = const_of(ev['rhs'])
+                                    elif ev.get('op') == '++':
+                                        lo, hi = min(lo + 1, HI), min(hi + 1, HI)
+                                    else:
+                                        lo, hi = LO, HI
+                                    matched = False if not typed else matched
+                                return (matched, typed, lo, hi)
+                            _, at_exit, _, _ = f.forward((False, False, LO, HI), on_event2, on_edge2)
+                            if not any(st[0] and not st[1] for st in at_exit):
+                                p = None
                     R.ob('C17.MPT.2', p is None, P.relloc((f.blocks[bid].get('term') or {}).get('loc', '?')), 'when the configured protocol name matches, the service adopts that protocol on every path (an in-place protocol change takes effect)', key='match->type')
                     R.obligations[-1]['function'] = f.name
                     # and it is the matched index that is stored
